@@ -8,7 +8,7 @@ CONSTANTS
   Keys = {"A", "B"}
   KeyOf <- MC_KeyOf
   Script = "full"
-  Causes = {"close", "disc_id", "disc_key", "shutdown", "displaced"}
+  Causes = {"close", "disc_id", "disc_key", "shutdown", "displaced", "pong_timeout"}
   QuiescentEnv = TRUE
   Paths = {"km", "challenge"}
   Proofs = {TRUE, FALSE}
